@@ -38,6 +38,9 @@ func encBox(b mp4.Box) []byte {
 
 // BuildProg builds ftyp + moov + mdat with the public constructors. Chunks of the tracks are
 // interleaved round-robin; payload bytes are symbolic.
+// LargeMdat makes BuildProg write the mdat box with a 64-bit (size == 1 + largesize) header.
+var LargeMdat bool
+
 func BuildProg(tracks []Track, co64 bool) *Prog {
 	pf := &Prog{Tracks: tracks}
 	init := mp4.CreateEmptyInit()
@@ -180,7 +183,11 @@ func BuildProg(tracks []Track, co64 bool) *Prog {
 	fill(0)
 	ftyp := encBox(init.Ftyp)
 	moovLen := int(init.Moov.Size())
-	payloadStart := len(ftyp) + moovLen + 8
+	mdatHdr := 8
+	if LargeMdat {
+		mdatHdr = 16
+	}
+	payloadStart := len(ftyp) + moovLen + mdatHdr
 	payload := fill(payloadStart)
 	moov := encBox(init.Moov)
 	if len(moov) != moovLen {
@@ -189,7 +196,12 @@ func BuildProg(tracks []Track, co64 bool) *Prog {
 	size := uint32(8 + len(payload))
 	out := append([]byte{}, ftyp...)
 	out = append(out, moov...)
-	out = append(out, byte(size>>24), byte(size>>16), byte(size>>8), byte(size), 'm', 'd', 'a', 't')
+	if LargeMdat {
+		ls := uint64(16 + len(payload))
+		out = append(out, 0, 0, 0, 1, 'm', 'd', 'a', 't', byte(ls>>56), byte(ls>>48), byte(ls>>40), byte(ls>>32), byte(ls>>24), byte(ls>>16), byte(ls>>8), byte(ls))
+	} else {
+		out = append(out, byte(size>>24), byte(size>>16), byte(size>>8), byte(size), 'm', 'd', 'a', 't')
+	}
 	out = append(out, payload...)
 	pf.Bytes = out
 	return pf
